@@ -36,6 +36,16 @@ Theorem C05_e1_decode_canonical :
 Proof. exact e1_decode_canonical. Qed.
 Print Assumptions C05_e1_decode_canonical.
 
+(* ... and every affine curve point with reduced coordinates (whatever the package produces as a G1
+   element) encodes to bytes that decode back to exactly that point.  Needs p prime (Euler's criterion
+   for the square root, no zero divisors for the choice of the root by the sign bit). *)
+Theorem C05_e1_encode_decode_roundtrip :
+  primeZ pZ ->
+  forall x y, 0 <= x < pZ -> 0 <= y < pZ -> on_curve_Z x y ->
+    decode_e1 (encode_e1 (Aff x y)) = (VALID, Aff x y).
+Proof. exact e1_encode_decode_roundtrip. Qed.
+Print Assumptions C05_e1_encode_decode_roundtrip.
+
 (* The full statement "accepted BLS public keys are exactly the canonical encodings
    IN THE ZCASH FORMAT" is false of the faithful model: the coefficients of F_p^2 are
    read real part first.  Witness: the standard generator of G2 in the ZCash encoding
